@@ -330,7 +330,7 @@ CLAIMS = {
         text="Lean theorems (Props/C15.lean): the decision the emulated resolver evaluates equals the kernel's may_follow_link "
              "(transcribed from fs/namei.c as early returns) for every sysctl value, caller uid, link owner, directory mode and "
              "owner; nothing is refused with the sysctl off; the refusal condition spelled out. Tie and oracle: the full matrix "
-             "directory mode x directory owner x link owner x caller uid (forked, setresuid) x link position x backend is run with "
+             "directory mode x directory owner x link owner x caller uid (forked; all ids set, and effective uid only with real uid 0) x link position x backend is run with "
              "the real sysctl at 0 and at 1, replayed through the model, and compared with openat2 issued by the same user.",
         note="fsuid = euid is assumed (as the code does). The kernel applies the rule to trailing links only; the emulated "
              "resolver applies it to every followed link (finding F14, listed in known_findings.json, not repaired). The check "
@@ -367,7 +367,8 @@ CLAIMS = {
              "C.pathrs_* call site of the Go binding (with its casts) and every libpathrs_so.* use plus the cdef preamble of the "
              "Python binding; `check tables = true` is then re-proved by `decide` (Props/C18.lean) and lifted by lemmas to: same "
              "symbol set and per-argument ABI classes, same enum values, same struct layout, every bound symbol declared with "
-             "the assumed arity/classes, integer typedefs of the right width. Thorough tier additionally builds the staticlib from "
+             "the assumed arity/classes (also against the Rust exports, position by position), integer typedefs of the right width, "
+             "cgo arguments named after header parameters standing at those parameters' positions. Thorough tier additionally builds the staticlib from "
              "the working tree, compares `nm` with the header and compiles+links a C unit with _Static_asserts on sizes, offsets, "
              "enum values against it.",
         note="The translator (regex-based parser of the four source languages) is trusted; a parse failure is reported as a broken "
